@@ -151,6 +151,8 @@ def gen_sched_script(rs: int, knobs: Optional[dict] = None) -> dict:
             src["schedules"].append(gen_sched(r, sid, kn, start_us, horizon_us))
         if r.random() < kn["p_list_delay"]:
             src["list_delay_us"] = r.choice([1, 1000, 50_000, 200_000, 300_000])
+        if stream(rs, f"live_list:{len(sources)}").random() < 0.25:
+            src["live_list"] = True          # get_schedules() hands out the source's own list; post_send removes sent one-shots from it
         if faults and r.random() < 0.6:
             npolls = horizon_us // 60_000_000 + 2
             src["fail_calls"] = sorted({r.randint(0, npolls) for _ in range(r.randint(1, 3)) if r.random() < 0.7 or True})
